@@ -26,26 +26,36 @@ fn jig(g: &mut Sm64, x: f64, eps: f64) -> f64 {
     x * (1.0 + (g.f64() - 0.5) * 2.0 * eps)
 }
 
+/// overall variance scale: mostly 1e-2..1e2, sometimes far smaller or larger (a determinant has
+/// units: nothing may depend on its absolute size)
+fn var_scale(g: &mut Sm64) -> f64 {
+    match g.below(6) {
+        0 => g.log_uniform(1e-12, 1e-2),
+        1 => g.log_uniform(1e2, 1e8),
+        _ => g.log_uniform(1e-2, 1e2),
+    }
+}
+
 fn random_cov(g: &mut Sm64) -> [[f64; 2]; 2] {
     // structured special cases: exactly diagonal with unequal / equal variances, identity
     match g.below(8) {
         0 => {
-            let s = g.log_uniform(1e-2, 1e2);
+            let s = var_scale(g);
             return [[s * g.log_uniform(1.0, 100.0), 0.0], [0.0, s]];
         }
         1 => {
-            let s = g.log_uniform(1e-2, 1e2);
+            let s = var_scale(g);
             return [[s, 0.0], [0.0, s * g.log_uniform(1.0, 100.0)]];
         }
         2 => {
-            let s = if g.bool() { 1.0 } else { g.log_uniform(1e-2, 1e2) };
+            let s = if g.bool() { 1.0 } else { var_scale(g) };
             return [[s, 0.0], [0.0, s]];
         }
         _ => {}
     }
     // SPD with condition number up to 1e4
     let cond = g.log_uniform(1.0, 1e4);
-    let s = g.log_uniform(1e-2, 1e2);
+    let s = var_scale(g);
     let th = g.uniform(0.0, std::f64::consts::PI);
     let (l1, l2) = (s * cond.sqrt(), s / cond.sqrt());
     let (c, sn) = (th.cos(), th.sin());
@@ -59,7 +69,12 @@ fn gaussian2d_case<F: Fl + ndarray::NdFloat>(rep: &mut Report, case: u64, g: &mu
     let mon = "gaussian2d";
     let sig = format!("Gaussian2D<{}>", F::NAME);
     let cov = random_cov(g);
-    let mean = [g.uniform(-5.0, 5.0), g.uniform(-5.0, 5.0)];
+    // the location lives on the distribution's own scale when that is far from 1 (otherwise the
+    // argument x - mean is lost to cancellation before the library sees it)
+    let sd0 = cov[0][0].max(cov[1][1]).sqrt();
+    let ms = if !(0.05..=50.0).contains(&sd0) { sd0 } else { 1.0 };
+    rep.count(&format!("covariance_scale[{}]", if sd0 < 0.05 { "sd<0.05" } else if sd0 > 50.0 { "sd>50" } else { "0.05..50" }));
+    let mean = [g.uniform(-5.0, 5.0) * ms, g.uniform(-5.0, 5.0) * ms];
     // quantise parameters to F first: the reference sees exactly what the implementation sees
     let q = |x: f64| F::of(x).to_f64().unwrap();
     let cov = [[q(cov[0][0]), q(cov[0][1])], [q(cov[0][1]), q(cov[1][1])]];
@@ -269,7 +284,9 @@ where
     // sometimes centred hundreds to thousands of standard deviations away from the origin
     let sd0 = cov[0][0].max(cov[1][1]).sqrt();
     let off = if g.chance(0.3) { g.log_uniform(1e2, 1e4) * sd0 } else { 0.0 };
-    let mean = [q(g.uniform(-5.0, 5.0) + off), q(g.uniform(-5.0, 5.0) - off * g.uniform(0.2, 1.0))];
+    let ms = if !(0.05..=50.0).contains(&sd0) { sd0 } else { 1.0 };
+    rep.count(&format!("covariance_scale[{}]", if sd0 < 0.05 { "sd<0.05" } else if sd0 > 50.0 { "sd>50" } else { "0.05..50" }));
+    let mean = [q(g.uniform(-5.0, 5.0) * ms + off), q(g.uniform(-5.0, 5.0) * ms - off * g.uniform(0.2, 1.0))];
     let lib = DiffableGaussian2D::<T>::new([T::of(mean[0]), T::of(mean[1])], [[T::of(cov[0][0]), T::of(cov[0][1])], [T::of(cov[1][0]), T::of(cov[1][1])]]);
     let r = Gauss2Ref { mean, cov };
     let rp = Gauss2Ref {
